@@ -199,7 +199,7 @@ def run_rules(pid, repo, tier="quick", seed=0):
     return ctx, mod
 
 
-_INTERPROCEDURAL = ("interprocedural", "through helpers", "E-ESCAPE", "who-may", "E-TYPE", "lockset", "E-LOCK", "field-read", "storage_class", "effect")
+_INTERPROCEDURAL = ("interprocedural", "through helpers", "helpers followed", "E-ESCAPE", "who-may", "E-TYPE", "lockset", "E-LOCK", "field-read", "storage_class", "effect")
 
 
 def _unfollowed_helpers(ctx):
@@ -215,6 +215,12 @@ def _unfollowed_helpers(ctx):
     new = {f.name for f in ctx.prog.fns.values()
            if f.file.startswith("oomd/") and f.kind in ("function", "method") and not f.d.get("parentfn")
            and not f.d.get("inlined_into") and program.plain(f.d["qname"]) not in known and not f.name.startswith("operator") and len(f.name) > 3}
+    from .inline import closure_holder
+    for l in ctx.prog.fns.values():
+        if l.kind == "lambda" and l.file.startswith("oomd/") and "@in:" not in l.usr:
+            par, holder = closure_holder(ctx.prog, l)
+            if par is not None and holder and len(holder) > 3 and ("%s|%s" % (par.pq, holder)) not in kk[1]:
+                new.add(holder)
     if not new:
         return
     rx = re.compile(r"\b(%s)\(" % "|".join(sorted(map(re.escape, new))))
